@@ -6,6 +6,7 @@ import (
 	"fmt"
 	"runtime"
 	"sync"
+	"sync/atomic"
 	"time"
 )
 
@@ -26,6 +27,9 @@ type cron struct {
 
 type cronJob struct {
 	disable bool
+	// spooled is set while the job sits in the spool for the next minute,
+	// so it is never put there (and fired) twice
+	spooled atomic.Bool
 
 	job gen.CronJob
 
@@ -61,6 +65,7 @@ func createCron(node gen.Node) *cron {
 				break
 			}
 			cj := item.(*cronJob)
+			cj.spooled.Store(false)
 			if cj.disable == true {
 				continue
 			}
@@ -339,6 +344,10 @@ func (c *cron) scheduleJob(cj *cronJob) {
 		return
 	}
 	if cj.mask.IsRunAt(next) == false {
+		return
+	}
+	if cj.spooled.CompareAndSwap(false, true) == false {
+		// already scheduled for the next minute
 		return
 	}
 	c.spool.Push(cj)
